@@ -36,6 +36,7 @@ def run(ctx):
     channel_stream(ctx, cirq, checks, n)
     circuit_stream(ctx, cirq, checks, 90 * n)
     noise_stream(ctx, cirq, checks, 40 * n)
+    mux_noise_stream(ctx, cirq, checks, 30 * n)
     evaluate(ctx, checks)
 
 
@@ -263,6 +264,48 @@ def noise_stream(ctx, cirq, checks, n):
         checks.append(('noise-model:simulate', f'fcl_close {TOL} (dexec_rho FOps {gates.nlist([2] * len(qs))} {mops} {gates.fvec(np.eye(dim)[0])}) {gates.fvec(rho.reshape(-1))}',
                        f'DensityMatrixSimulator(noise={noise_gate!r}) differs from simulating the circuit the noise model produces on {desc}',
                        dict(signature=sig, circuit=repr(c), noise=repr(noise_gate), prepend=prepend)))
+
+
+def mux_noise_stream(ctx, cirq, checks, n):
+    """cirq.final_density_matrix(circuit, noise=model) with classically controlled operations (its own code path: noise first, then
+    measurements deferred and dephased) = the averaged state of the circuit the noise model produces, through the reference semantics."""
+    rng = ctx.rng
+    for i in range(n):
+        k = rng.randint(2, 3)
+        qs = cirq.LineQubit.range(k)
+        c = cirq.Circuit()
+        for _ in range(rng.randint(1, 3)):
+            if rng.random() < 0.4:
+                a, b = rng.sample(range(k), 2)
+                c.append(rng.choice([cirq.CNOT, cirq.CZ])(qs[a], qs[b]))
+            else:
+                c.append(rng.choice([cirq.H, cirq.X ** 0.5, cirq.Y ** 0.25, cirq.rx(0.7)])(qs[rng.randrange(k)]))
+        m = rng.randrange(k)
+        c.append(cirq.measure(qs[m], key='a'))
+        t = rng.randrange(k)
+        c.append(rng.choice([cirq.X, cirq.H, cirq.Y ** 0.5])(qs[t]).with_classical_controls('a'))
+        if rng.random() < 0.5:
+            c.append(rng.choice([cirq.H, cirq.T])(qs[rng.randrange(k)]))
+        noise_gate = rng.choice([cirq.depolarize(0.1), cirq.bit_flip(0.2), cirq.amplitude_damp(0.3), cirq.phase_damp(0.25)])
+        nm = cirq.ConstantQubitNoiseModel(noise_gate)
+        desc = str(c).replace('\n', ' | ')[:300]
+        noisy = c.with_noise(nm)
+        try:
+            mops, meas, _ = opsem.circuit_to_mops(cirq, noisy, qs)
+        except opsem.Unsupported:
+            continue
+        dim = 2 ** k
+        try:
+            rho = np.asarray(cirq.final_density_matrix(c, noise=nm, qubit_order=qs, dtype=np.complex128))
+        except Exception as e:
+            ctx.violation('mux-noise:raises', f'cirq.final_density_matrix(noise={noise_gate!r}) raised {type(e).__name__}: {e} on {desc}',
+                          dict(kind='mux-noise', circuit=repr(c), noise=repr(noise_gate)))
+            continue
+        ctx.count('noise-model:final_density_matrix', [desc, repr(noise_gate)], True, sample=dict(circuit=desc, noise=repr(noise_gate)))
+        checks.append(('noise-model:final_density_matrix',
+                       f'fcl_close {TOL} (dexec_rho FOps {gates.nlist([2] * k)} {mops} {gates.fvec(np.eye(dim)[0])}) {gates.fvec(rho.reshape(-1))}',
+                       f'cirq.final_density_matrix(noise={noise_gate!r}) differs from the averaged state of the circuit the noise model produces on {desc}',
+                       dict(signature='noise-mux:classical-control', circuit=repr(c), noise=repr(noise_gate))))
 
 
 def evaluate(ctx, checks):
